@@ -478,6 +478,82 @@ def _function(body, name='f'):
     return src
 
 
+# ------------------------------------------------------------------------------------------------
+# test-position matrix: EVERY expression kind of the model as the (bare) test of every control-flow construct
+# (a shape-specific fast path — "this kind of test needs no operator" — must meet its shape somewhere)
+# ------------------------------------------------------------------------------------------------
+TEST_EXPRS = {
+    # Name / Constant
+    'name': 'a', 'const_int': '1', 'const_none': 'None', 'const_str': '"s"',
+    # Compare x every operator
+    'is': 'a is None', 'isnot': 'a is not None', 'in': 'a in l', 'notin': 'a not in l',
+    'eq': 'a == b', 'ne': 'a != b', 'lt': 'a < b', 'le': 'a <= b', 'gt': 'a > b', 'ge': 'a >= b',
+    # chained and mixed
+    'chain_lt': 'a < b <= c', 'chain_is': 'a is b is c', 'chain_is_in': 'a is not None in [True]', 'chain_lt_in': 'a < b in l',
+    'chain_is_eq': 'a is b == c', 'chain_in_in': 'a in l in [l]', 'chain_eq_ne': 'a == b != c',
+    # operands with effects
+    'is_call': 'tr({k}, a) is None', 'in_call': 'tr({k}, a) in l', 'notin_call': 'a not in tr({k}, l)', 'eq_call': 'tr({k}, a) == h(b)',
+    # BoolOp / UnaryOp
+    'and': 'a and b', 'or': 'a or b', 'and_is_in': 'a is None or b in l', 'not': 'not a', 'not_in_paren': 'not (a in l)',
+    'not_is': 'not a is None', 'usub': '-a',
+    # Call / Attribute / Subscript / BinOp
+    'call': 'h(a)', 'call_d': 'd()', 'method': 'o.m(a)', 'attr': 'o.v', 'subscript': 'l[0]', 'slice': 'l[0:1]', 'binop': 'a + b',
+    # IfExp / NamedExpr / Lambda call / displays / comprehension / f-string
+    'ifexp': 'a if b else c', 'namedexpr': '(zz := a)', 'lambda_call': '(lambda q: q)(a)', 'tuple': '(a, b)', 'list': '[a]',
+    'dict': '{{a: b}}', 'listcomp': '[q for q in l if q is not None]', 'fstring': 'f"{{a}}"',
+}
+
+TEST_POSITIONS = {
+    'if': 'if {e}:\n    x = tr({k}1, 1)\nelse:\n    y = tr({k}2, 2)',
+    'if_noelse': 'if {e}:\n    x = tr({k}1, 1)',
+    'elif': 'if d():\n    x = 1\nelif {e}:\n    x = tr({k}1, 2)\nelse:\n    y = 3',
+    # a bare `while` test: the loop is left by an exception (break/return lowering would rewrite the test)
+    'while': 'try:\n    while {e}:\n        w = w + 1\n        raise E1(tr({k}1, w))\nexcept E1:\n    pass',
+    'if_in_for': 'for i in n():\n    if {e}:\n        x = tr({k}1, i)',
+    'if_in_while': 'try:\n    while d():\n        if {e}:\n            x = tr({k}1, 1)\n        raise E1(0)\nexcept E1:\n    pass',
+    'if_in_with': 'with cm(3):\n    if {e}:\n        x = tr({k}1, 1)',
+    'if_in_try': 'try:\n    if {e}:\n        x = tr({k}1, 1)\nexcept E1:\n    pass\nfinally:\n    if {e}:\n        y = 2',
+    'if_in_def': 'def g(a, b, c, l, o):\n    if {e}:\n        return tr({k}1, 1)\n    return 0\nx = g(a, b, c, l, o)',
+    'if_nested': 'if d():\n    if {e}:\n        x = tr({k}1, 1)\n    else:\n        y = 2',
+    'ifexp_test': 'x = (tr({k}1, 1) if {e} else tr({k}2, 2))',
+    'lambda_ifexp': 'x = (lambda a, b, c, l, o: 1 if {e} else 2)(a, b, c, l, o)',
+    'assert': 'assert {e}, "m"',
+    'comp_if': 'x = [q for q in l if {e}]',
+    'genexp_if': 'x = sum(1 for q in l if {e})',
+    'and_operand': 'x = (({e}) and d())',
+    'or_operand': 'x = (d() or ({e}))',
+    'not_operand': 'x = (not ({e}))',
+    'plain': 'x = ({e})',
+    'exprstmt': '({e})',
+    'return': 'return ({e})',
+    'call_arg': 'x = tr(0, ({e}))',
+}
+
+EQ_SENSITIVE_TESTS = ('eq', 'ne', 'chain_is_eq', 'chain_eq_ne', 'eq_call')
+
+
+def test_matrix_programs():
+    import warnings
+    warnings.filterwarnings('ignore', category=SyntaxWarning)
+    out = []
+    k = 5000
+    for en, e in TEST_EXPRS.items():
+        for pn, pos in TEST_POSITIONS.items():
+            k += 4
+            ex = e.format(k=k)
+            body = pos.format(e=ex, k=k)
+            src = CTX_PRELUDE + _function(body)
+            try:
+                compile(src, '<ctx>', 'exec')
+            except SyntaxError:
+                continue
+            p = progen.Program(src, [(1, 2, 3, [1, 2]), (0, 0, 5, [0, 3])], {'pos:' + pn, 'test:' + en}, 'context',
+                               decisions=[[1, 0, 2, 1, 0, 1, 1, 0], [0] * 8, [2, 1, 1, 1, 0, 2, 1, 1]])
+            p.construct, p.context, p.shape = 't:' + en, 'p:' + pn, 'test'
+            out.append(p)
+    return out
+
+
 def context_programs():
     """Each overloadable construct in each syntactic context: list of (key, construct, context, Program)."""
     out = []
@@ -513,6 +589,7 @@ def context_programs():
                                decisions=[[1, 0, 2, 1, 0, 1, 1, 0], [0] * 8, [2, 1, 1, 1, 0, 2, 1, 1]])
             p.construct, p.context, p.shape = cn, xn, 'stmt'
             out.append(p)
+    out.extend(test_matrix_programs())
     for cn, s in BAD_DIRECTIVES.items():
         src = CTX_PRELUDE + _function(s)
         p = progen.Program(src, [(1, 2, 3, [1, 2])], {'cons:' + cn}, 'context', decisions=[[1, 1, 0, 0]])
